@@ -74,7 +74,8 @@ CHECKS.update({
     "C17": dict(
         technique="Lean 4 proof over R on generated formulas + Float correspondence + metamorphic search on TimeSeries.stats",
         text="Theorems: gloc = Weibull invcdf(1-1/n), gscale = 1/(n pdf(gloc)), fit_from_weibull_parameters == weibull2gumbel. The "
-             "summary's consistency, affine equivariance and minima mirror are checked on the implementation (partial). Descriptive half "
+             "summary's consistency, affine equivariance and minima mirror are checked on the implementation (partial); the number of peaks n is "
+             "proved to be round() of the expression regenerated from TimeSeries.stats (summary_chain_source). Descriptive half "
              "(Qats.Moments: start/end/duration/dtavg/mean/std/skew/kurt/min/max/tz with scipy's bias-corrected formulas): min <= mean "
              "<= max, duration = end - start, dtavg*(n-1) = duration, affine equivariance and mirror proved for all series; tied by "
              "Float (st.moments) and exact Rat (st.momentsq) correspondence with TimeSeries.stats on the processed arrays.",
@@ -151,7 +152,8 @@ CHECKS.update({
         technique="Lean 4 proof (pipeline model with abstract stages over any ordered field; concrete model of the smoothing and Tukey-taper stages) + exact Rat correspondence with tag-function stages + Float correspondence of smooth / taper / get + float search",
         text="Theorems: a window returns exactly the in-window samples in order; interpolation reproduces nodes, is the linear "
              "interpolant (convex combination) between them, has no value outside the span and always one inside; the step grid "
-             "has round((t1-t0)/d)+1 equidistant points from first to last sample with |k-(t1-t0)/d| <= 1/2; no options = "
+             "has round((t1-t0)/d)+1 equidistant points from first to last sample with |k-(t1-t0)/d| <= 1/2, the ratio being the "
+             "argument of round() regenerated from the source on every run (newTimearray_ratio_is_source); no options = "
              "identity; stage order window/resample/taper/filter/smooth with the filter receiving t'[1]-t'[0]; array resampling "
              "returns that array or fails, never with a window; equal lengths; stand-alone resampling succeeds with all new "
              "times inside the span. Stage functions are patched by non-commuting tags on both sides of the correspondence. The two "
